@@ -13,11 +13,12 @@ pub const ATTR_VALS: &[&str] = &[
     "", "v", ">", "/>", "a>b", "--", "]]>", "?>", "&amp;", " x ", "<", "</a>", "=", "&#65;", "\u{e9}", "/",
 ];
 pub const COMMENTS: &[&str] = &[
-    "", " c ", ">", "->", "-", "</a>", "<a>", "--", " -- ", "]]>", "?>", "'", "\"", "x", "->-", "a--",
+    "", " c ", ">", "->", "-", "</a>", "<a>", "--", " -- ", "]]>", "?>", "'", "\"", "x", "->-", "a--", "-x->", "a-b->c", "->-x", "- ->",
     "!", "<!--",
 ];
 pub const CDATAS: &[&str] = &[
     "", "x", "]", "]]", "]>", ">", "</a>", "<a>", "]]]", "&amp;", "-->", "?>", "'", "]] >", "a]", "\"", "<![CDATA[",
+    "x[0]y[1]>z", "]a]>", "a]b]>c", "]>]", "] ]>", "]x]]", "a]>b]", "]-]>", "--]>",
 ];
 pub const PIS: &[&str] = &[
     "pi", "pi x", "p ?", "p >", "p ?x>", "p ??", "s href='>'", "x?", "", "?", "p\n", "xml-x", "xmlx", "p -->",
